@@ -44,7 +44,7 @@ func init() {
 			if tier == "quick" {
 				return 18
 			}
-			return 150
+			return 300
 		},
 		Batch:   4,
 		Workers: 8,
